@@ -52,7 +52,7 @@ Import String.
    docstrings, comments and layout).  A different digest means that the model is no longer known to describe the
    code; the check then reports the broken tie and looks for a failing input. *)
 Theorem c14_models_describe_the_current_source :
-  (pin_template_parameters, pin_lua_frame_args_index) = ("3d1ee605e00f71c9", "1139f4740e06afaa")%string.
+  (pin_template_parameters, pin_lua_frame_args_index) = ("0e7cdc3bddd5cb8e", "1139f4740e06afaa")%string.
 Proof. reflexivity. Qed.
 Print Assumptions c14_models_describe_the_current_source.
 End Pins.
